@@ -147,7 +147,7 @@ FN('set_header', props=['C16', 'C02'], ret='r', trusted=True,
    rewrites=[('N8', '<HeaderName as TryFrom<K>>::Error: Into<http::Error>,', '<HeaderName as TryFrom<K>>::Error: Into<crate::http::Error>,'),
              ('N8', '<HeaderValue as TryFrom<V>>::Error: Into<http::Error>,', '<HeaderValue as TryFrom<V>>::Error: Into<crate::http::Error>,')])
 FN('unset_header', props=['C13', 'C16'], ret='r', trusted=True,
-   requires=[('C12.unset_capacity', 'old(self).unset.view().len() < 3')],
+   requires=[('C12.unset_capacity', 'old(self).unset.view().len() < 4')],
    ensures=[('assumed.unset_header', '''final(self).request == old(self).request && final(self).uri == old(self).uri && final(self).headers.view() == old(self).headers.view() && match key_bytes::<K>(name) {
             Some(n) => r is Ok && final(self).unset_names() == old(self).unset_names().push(n) && final(self).unset.view().len() == old(self).unset.view().len() + 1,
             None => r is Err && final(self).unset.view() == old(self).unset.view() }''')],
@@ -165,16 +165,15 @@ FN('method', props=['C15', 'C17'], ret='r', ensures=[('aux.AmendedRequest.method
 FN('version', props=['C17'], ret='r', ensures=[('aux.AmendedRequest.version', 'r == self.request.spec_version()')])
 
 FN('new_uri_from_location', props=['C14', 'C12'], ret='r',
-   requires=[('C14.base_is_absolute', 'crate::url::spec_url_parse(self.eff_uri().spec_text()) is Some')],
-   ensures=[('C14.resolve_against_current', '''({
-            let base = crate::url::spec_url_parse(self.eff_uri().spec_text())->Some_0;
-            match crate::url::rfc3986_resolve(base, str_bytes(location)) {
+   ensures=[('C14.resolve_against_current', '''match crate::url::spec_url_parse(self.eff_uri().spec_text()) {
+            None => r is Err && r->Err_0 is BadLocationHeader,
+            Some(base) => match crate::url::rfc3986_resolve(base, str_bytes(location)) {
                 None => r is Err && r->Err_0 is BadLocationHeader,
                 Some(t) => match parse_any::<Uri>(t) { Some(u) => r == Ok::<Uri, Error>(u), None => r is Err && r->Err_0 is BadLocationHeader },
-            }
-        })''')],
+            },
+        }''')],
    rewrites=[
-       ('N5', '.map_err(|_| Error::BadLocationHeader(location.to_string()))?', '.map_err(|_e: crate::url::ParseError| -> (e2: Error) ensures e2 is BadLocationHeader { bad_location(location) })?'),
+       ('N5', '.map_err(|_| Error::BadLocationHeader(location.to_string()))?', '.map_err(|_e: crate::url::ParseError| -> (e2: Error) ensures e2 is BadLocationHeader { bad_location(location) })?', 2),
        ('N5', '.map_err(|_| Error::BadLocationHeader(url.to_string()))?', '.map_err(|_e: crate::http::uri::InvalidUri| -> (e2: Error) ensures e2 is BadLocationHeader { bad_location(location) })?'),
    ])
 
